@@ -154,7 +154,7 @@ def main(argv=None):
         else:
             bounded_out.append(r)
             for f in r.get("failures", []):
-                violations.append({"obligation": r["id"], "bounded": True, "replayed": True, "witness": f, "contract": r["id"]})
+                violations.append({"obligation": r["id"] + (":" + str(f.get("what"))[:80] if isinstance(f, dict) and f.get("what") else ""), "bounded": True, "replayed": True, "witness": f, "contract": r["id"]})
 
     # ------------------------------------------------------------------ known findings
     kf_out = []
